@@ -773,24 +773,68 @@ func c02ExceptionTyped(c *Ctx, r *Report, fn *ssa.Function, tcp bool, crc *ssa.F
 		if !feasible {
 			continue
 		}
-		ev := rs.vals[len(rs.vals)-1]
-		if g, isG := ev.(AGlobalVal); isG && strings.Contains(g.g.Name(), "CRC") {
-			continue // the verifying dispatcher's CRC failure
+		// a single exit that merges several paths is judged path by path (the phi's incoming values
+		// under the states of their edges)
+		type alt struct {
+			ev AV
+			st DNF
 		}
-		if ai, isI := ev.(AIface); isI {
-			if g, isG := ai.val.(AGlobalVal); isG && strings.Contains(g.g.Name(), "CRC") {
-				continue
+		alts := []alt{{rs.vals[len(rs.vals)-1], rs.state}}
+		if nres := len(rs.instr.Results); nres > 0 {
+			if ph, isPhi := rs.instr.Results[nres-1].(*ssa.Phi); isPhi && ph.Block() == rs.instr.Block() {
+				alts = nil
+				for i, e := range ph.Edges {
+					pred := ph.Block().Preds[i]
+					st := site.fr.edge[[2]int{pred.Index, ph.Block().Index}]
+					feas := false
+					for _, cj := range st {
+						if !infeasible(cj.with(an.global...)) {
+							feas = true
+						}
+					}
+					if !feas {
+						continue
+					}
+					// the result of a parser of the module called on this path: that parser's returns
+					if ex, isEx := e.(*ssa.Extract); isEx {
+						if call, isCall := ex.Tuple.(*ssa.Call); isCall {
+							if ch := site.fr.child[call]; ch != nil && c.inModule(ch.fn) {
+								n0 := len(alts)
+								for _, s2 := range expandedReturns(ch, 1) {
+									if len(s2.rs.state) > 0 && ex.Index < len(s2.rs.vals) {
+										alts = append(alts, alt{s2.rs.vals[ex.Index], s2.rs.state})
+									}
+								}
+								if len(alts) > n0 {
+									continue
+								}
+							}
+						}
+					}
+					alts = append(alts, alt{site.fr.val(e), st})
+				}
 			}
 		}
-		ts, unknown := dynTypesOf(ev)
-		okT := !unknown && len(ts) == 1
-		if okT {
-			nt, isN := deref(ts[0]).(*types.Named)
-			okT = isN && strings.HasPrefix(nt.Obj().Name(), "ErrorResponse")
-		}
-		nf := site.fr.nilness(ev)
-		if !okT || !(nf.kind == fConst && !nf.b) && !rs.state.entailsForm(formNot(nf)) {
-			bad = fmt.Sprintf("return at %s yields %s (dynamic types %v, unknown=%v, nilness %v)", c.pos(rs.instr.Pos()), describeAV(ev), ts, unknown, nf.kind)
+		for _, al := range alts {
+			ev := al.ev
+			if g, isG := ev.(AGlobalVal); isG && strings.Contains(g.g.Name(), "CRC") {
+				continue // the verifying dispatcher's CRC failure
+			}
+			if ai, isI := ev.(AIface); isI {
+				if g, isG := ai.val.(AGlobalVal); isG && strings.Contains(g.g.Name(), "CRC") {
+					continue
+				}
+			}
+			ts, unknown := dynTypesOf(ev)
+			okT := !unknown && len(ts) == 1
+			if okT {
+				nt, isN := deref(ts[0]).(*types.Named)
+				okT = isN && strings.HasPrefix(nt.Obj().Name(), "ErrorResponse")
+			}
+			nf := site.fr.nilness(ev)
+			if !okT || !(nf.kind == fConst && !nf.b) && !al.st.entailsForm(formNot(nf)) {
+				bad = fmt.Sprintf("return at %s yields %s (dynamic types %v, unknown=%v, nilness %v)", c.pos(rs.instr.Pos()), describeAV(ev), ts, unknown, nf.kind)
+			}
 		}
 	}
 	if bad == "" {
